@@ -47,6 +47,7 @@ class LoopMixin(object):
         state.fresh = tuple(fr for fr in state.fresh if not mentions(fr[2], local))
         for k in [k for k in state.sel if lo <= k[1] <= hi and k[0] == path]:
             del state.sel[k]
+        state.pc = tuple(c for c in state.pc if not mentions(c[0], local))
 
     def _widen(self, s, frame, assigned, loopid):
         """loop-assigned non-flag variables become stable 'loopvar' terms"""
@@ -119,9 +120,10 @@ class LoopMixin(object):
                         add_exit(b2, iters)
             for b2 in starts:
                 pre_abs = (b2.dirty, b2.wrote)
+                npc = len(b2.pc)
                 for (s2, o) in self.exec_block(node.body, b2, frame):
                     alt = {"pre": pre_abs, "events": s2.events, "out": o.kind,
-                           "post": (s2.dirty, s2.wrote)}
+                           "post": (s2.dirty, s2.wrote), "pc": s2.pc[npc:]}
                     alts.append(alt)
                     if o.kind in ("normal", "continue"):
                         s2.events = []
